@@ -17,8 +17,14 @@ theorem bytes_caps : ∀ caps : List Cap, bytes (caps.map capInstr) = capsBytes 
 
 mutual
 theorem bytes_compileE : ∀ (e : FExpr) (pos k : Nat), bytes (compileE pos k e) = sizeE e
-  | .lit .., _, _ | .tru _, _, _ | .fls _, _, _ | .null _, _, _ | .gget .., _, _ | .lget .., _, _ | .curr _, _, _ | .fget .., _, _ => by
+  | .lit .., _, _ | .tru _, _, _ | .fls _, _, _ | .null _, _, _ | .gget .., _, _ | .lget .., _, _ | .curr _, _, _ | .fget .., _, _
+  | .bfn .., _, _ => by
     simp [compileE, sizeE, bytes, Instr.size]
+  | .arrLit _ es, pos, k => by simp [compileE, sizeE, bytes_append, bytes, Instr.size, bytes_compileArgs es]
+  | .mapLit _ es, pos, k => by simp [compileE, sizeE, bytes_append, bytes, Instr.size, bytes_compileArgs es]
+  | .index _ c i, pos, k => by simp [compileE, sizeE, bytes_append, bytes, Instr.size, bytes_compileE c, bytes_compileE i]; omega
+  | .setIndex _ c i e, pos, k => by
+    simp [compileE, sizeE, bytes_append, bytes, Instr.size, bytes_compileE c, bytes_compileE i, bytes_compileE e]; omega
   | .fset _ _ a, pos, k => by simp [compileE, sizeE, bytes_append, bytes, Instr.size, bytes_compileE a]
   | .mkclos _ _ _ _ _ _ caps, pos, k => by simp [compileE, sizeE, bytes_append, bytes, Instr.size, bytes_caps]
   | .un _ op a, pos, k => by cases op <;> simp [compileE, sizeE, bytes_append, bytes, Instr.size, unInstr, bytes_compileE a]
@@ -133,10 +139,10 @@ end
 
 /-- the state after a `return` of `v`: the caller's frame, the value in place of the callee
 slot (`sp = bp - 1`, push) -/
-def retSt (X : Ctxt) (v : Val) (g : List Val) (h : List (List Val)) : FSt :=
+def retSt (X : Ctxt) (v : Val) (g : List Val) (h : List (List Val)) (a : Heap) : FSt :=
   match X.callers with
-  | c :: cs => ⟨c, v :: X.base.tail, g, h, cs⟩
-  | [] => X.at 0 [] g h
+  | c :: cs => ⟨c, v :: X.base.tail, g, h, a, cs⟩
+  | [] => X.at 0 [] g h a
 
 /-- after a statement that ends in flow `f`: at the statement's end, or at the end / the
 beginning of the loop addressed, with the operands `ops` it started with on the slots `σ.l`;
@@ -145,7 +151,7 @@ def exitS (X : Ctxt) (ctx : List LoopCtx) (endPos : Nat) (ops : List Val) (σ : 
   | .normal => X.st endPos ops σ
   | .brk l => X.st (breakTarget ctx l) ops σ
   | .cont l => X.st (contTarget ctx l) ops σ
-  | .ret v => retSt X v σ.g σ.h
+  | .ret v => retSt X v σ.g σ.h σ.a
 
 /-- after a block in value position: its value `bv` is pushed when it ends normally -/
 def exitV (X : Ctxt) (ctx : List LoopCtx) (endPos : Nat) (ops : List Val) (σ : Sto) (f : FFlow) (bv : Val) : FSt :=
@@ -156,7 +162,7 @@ def exitV (X : Ctxt) (ctx : List LoopCtx) (endPos : Nat) (ops : List Val) (σ : 
 /-- after a function body: ending normally it has returned its value `bv` -/
 def exitT (X : Ctxt) (ctx : List LoopCtx) (ops : List Val) (σ : Sto) (f : FFlow) (bv : Val) : FSt :=
   match f with
-  | .normal => retSt X bv σ.g σ.h
+  | .normal => retSt X bv σ.g σ.h σ.a
   | f => exitS X ctx 0 ops σ f
 
 theorem exitS_ne_normal {X ctx e1 e2 ops σ f} (h : f ≠ FFlow.normal) : exitS X ctx e1 ops σ f = exitS X ctx e2 ops σ f := by
@@ -308,38 +314,196 @@ section
 variable {K : List Val} {F : FnDef → Option (List Instr)} {X : Ctxt}
 
 theorem fs_const {pc idx v ops σ} (h : codeAt X.code pc [Instr.const idx]) (hk : K[idx]? = some v) :
-    fstep K F (X.st pc ops σ) = some (X.st (pc + 3) (v :: ops) σ) := fstep_core (step_const h hk)
+    fstep K F (X.st pc ops σ) = some (X.st (pc + 3) (v :: ops) σ) := fstep_core h rfl (step_const h hk)
 theorem fs_pop {pc v ops σ} (h : codeAt X.code pc [Instr.pop]) :
-    fstep K F (X.st pc (v :: ops) σ) = some (X.st (pc + 1) ops σ) := fstep_core (step_pop h)
-theorem fs_op {pc o l r v ops σ} (h : codeAt X.code pc [Instr.op o]) (hv : execOperator o l r = .ok v) :
-    fstep K F (X.st pc (r :: l :: ops) σ) = some (X.st (pc + 1) (v :: ops) σ) := fstep_core (step_op h hv)
+    fstep K F (X.st pc (v :: ops) σ) = some (X.st (pc + 1) ops σ) := fstep_core h rfl (step_pop h)
+theorem fs_op {pc o l r v ops} {σ : Sto} (h : codeAt X.code pc [Instr.op o]) (hv : opH σ.a o l r = .same v) :
+    fstep K F (X.st pc (r :: l :: ops) σ) = some (X.st (pc + 1) (v :: ops) σ) := fstep_op h hv
+theorem fs_opNew {pc o l r v ops} {σ : Sto} {a' : Heap} (h : codeAt X.code pc [Instr.op o]) (hv : opH σ.a o l r = .new v a') :
+    fstep K F (X.st pc (r :: l :: ops) σ) = some (X.st (pc + 1) (v :: ops) ⟨σ.l, σ.g, σ.h, a'⟩) := fstep_opNew h hv
 theorem fs_tru {pc ops σ} (h : codeAt X.code pc [Instr.tru]) :
-    fstep K F (X.st pc ops σ) = some (X.st (pc + 1) (.bool true :: ops) σ) := fstep_core (step_tru h)
+    fstep K F (X.st pc ops σ) = some (X.st (pc + 1) (.bool true :: ops) σ) := fstep_core h rfl (step_tru h)
 theorem fs_fls {pc ops σ} (h : codeAt X.code pc [Instr.fls]) :
-    fstep K F (X.st pc ops σ) = some (X.st (pc + 1) (.bool false :: ops) σ) := fstep_core (step_fls h)
+    fstep K F (X.st pc ops σ) = some (X.st (pc + 1) (.bool false :: ops) σ) := fstep_core h rfl (step_fls h)
 theorem fs_null {pc ops σ} (h : codeAt X.code pc [Instr.null]) :
-    fstep K F (X.st pc ops σ) = some (X.st (pc + 1) (.null :: ops) σ) := fstep_core (step_null h)
-theorem fs_un {pc op v r ops σ} (h : codeAt X.code pc [unInstr op]) (hv : applyUn op v = .ok r) :
-    fstep K F (X.st pc (v :: ops) σ) = some (X.st (pc + 1) (r :: ops) σ) := fstep_core (step_un h hv)
+    fstep K F (X.st pc ops σ) = some (X.st (pc + 1) (.null :: ops) σ) := fstep_core h rfl (step_null h)
+theorem fs_un {pc op v r ops} {σ : Sto} (h : codeAt X.code pc [unInstr op]) (hv : unH σ.a op v = .ok r) :
+    fstep K F (X.st pc (v :: ops) σ) = some (X.st (pc + 1) (r :: ops) σ) := by
+  cases op with
+  | bang =>
+    simp only [unH, OpRes.ok.injEq] at hv
+    subst hv
+    exact fstep_bang h
+  | minus => exact fstep_core (i := .minus) h rfl (step_un (op := .minus) h hv)
+  | bnot => exact fstep_core (i := .bnot) h rfl (step_un (op := .bnot) h hv)
 theorem fs_jump {pc t ops σ} (h : codeAt X.code pc [Instr.jump t]) :
-    fstep K F (X.st pc ops σ) = some (X.st t ops σ) := fstep_core (step_jump h)
-theorem fs_jif {pc t v ops σ} (h : codeAt X.code pc [Instr.jif t]) :
-    fstep K F (X.st pc (v :: ops) σ) = some (X.st (if v.isFalsey then t else pc + 3) ops σ) := fstep_core (step_jif h)
-theorem fs_jifnp {pc t v ops σ} (h : codeAt X.code pc [Instr.jifnp t]) :
-    fstep K F (X.st pc (v :: ops) σ) = some (X.st (if v.isFalsey then t else pc + 3) (v :: ops) σ) := fstep_core (step_jifnp h)
+    fstep K F (X.st pc ops σ) = some (X.st t ops σ) := fstep_core h rfl (step_jump h)
+theorem fs_jif {pc t v ops} {σ : Sto} (h : codeAt X.code pc [Instr.jif t]) :
+    fstep K F (X.st pc (v :: ops) σ) = some (X.st (if falseyH σ.a v then t else pc + 3) ops σ) := fstep_jif h
+theorem fs_jifnp {pc t v ops} {σ : Sto} (h : codeAt X.code pc [Instr.jifnp t]) :
+    fstep K F (X.st pc (v :: ops) σ) = some (X.st (if falseyH σ.a v then t else pc + 3) (v :: ops) σ) := fstep_jifnp h
 theorem fs_getGlobal {pc i ops σ} (h : codeAt X.code pc [Instr.getGlobal i]) :
-    fstep K F (X.st pc ops σ) = some (X.st (pc + 3) (σ.g.getD i .null :: ops) σ) := fstep_core (step_getGlobal h)
+    fstep K F (X.st pc ops σ) = some (X.st (pc + 3) (σ.g.getD i .null :: ops) σ) := fstep_core h rfl (step_getGlobal h)
 theorem fs_setGlobal {pc i v ops} {σ : Sto} (h : codeAt X.code pc [Instr.setGlobal i]) (hi : i < σ.g.length) :
-    fstep K F (X.st pc (v :: ops) σ) = some (X.st (pc + 3) (v :: ops) ⟨σ.l, σ.g.set i v, σ.h⟩) := fstep_core (step_setGlobal h hi)
+    fstep K F (X.st pc (v :: ops) σ) = some (X.st (pc + 3) (v :: ops) ⟨σ.l, σ.g.set i v, σ.h, σ.a⟩) := fstep_core h rfl (step_setGlobal h hi)
 theorem fs_defGlobal {pc i v ops} {σ : Sto} (h : codeAt X.code pc [Instr.defGlobal i]) (hi : i < σ.g.length) :
-    fstep K F (X.st pc (v :: ops) σ) = some (X.st (pc + 3) ops ⟨σ.l, σ.g.set i v, σ.h⟩) := fstep_core (step_defGlobal h hi)
+    fstep K F (X.st pc (v :: ops) σ) = some (X.st (pc + 3) ops ⟨σ.l, σ.g.set i v, σ.h, σ.a⟩) := fstep_core h rfl (step_defGlobal h hi)
+theorem fs_dup {pc v ops σ} (h : codeAt X.code pc [Instr.dup]) :
+    fstep K F (X.st pc (v :: ops) σ) = some (X.st (pc + 1) (v :: v :: ops) σ) := fstep_core h rfl (step_dup h)
 
-/-- the tests of the patterns of one arm, with the scrutinee `v` on top of the operands (the
-core machine's `pats_correct`, inside an activation) -/
-theorem fs_pats (ps : List CPat) (pos k t : Nat) (v : Val) (ops : List Val) (σ : Sto) (b : Bool)
-    (h : codeAt X.code pos (compilePats pos k t ps)) (hp : poolAt K k (patsConsts ps)) (ht : patsTest v ps = some b) :
-    FSteps K F (X.st pos (v :: ops) σ) (X.st (if b then t else pos + patsBytes ps) (v :: ops) σ) :=
-  FSteps.ofCore (hp := σ.h) (pats_correct ps X.code K pos k t v (ops ++ (σ.l.reverse ++ X.base)) σ.g b h hp ht)
+/-! ### match patterns: the comparisons are on views, their results are booleans -/
+
+theorem ge_bool {k : BinKind} (hk : k = .gt ∨ k = .ge) {l r v : Val} (h : binaryOp k l r = .ok v) : ∃ b, v = .bool b := by
+  unfold binaryOp at h
+  have e1 : (k == .arith .div || k == .arith .rem) = false := by rcases hk with rfl | rfl <;> decide
+  have e2 : (k == .arith .add) = false := by rcases hk with rfl | rfl <;> decide
+  have e3 : (k == .arith .mul) = false := by rcases hk with rfl | rfl <;> decide
+  simp only [e1, e3, Bool.false_and, Bool.false_eq_true, if_false] at h
+  have hb : ∀ l r v, applyBin k l r = .ok v → ∃ b, v = .bool b := by
+    intro l r v hv
+    rcases hk with rfl | rfl <;> (simp only [applyBin, OpRes.ok.injEq] at hv; exact ⟨_, hv.symm⟩)
+  split at h
+  · split at h
+    · simp at h
+    · exact hb _ _ _ h
+  · rcases hk with rfl | rfl <;> (split at h <;> first | exact hb _ _ _ h | (simp at h; done))
+
+/-- the three operators of the match template yield booleans -/
+theorem cmp_bool {o : Operator} (ho : o = .notEqual ∨ o = .greaterEq ∨ o = .greater) {l r v : Val}
+    (h : execOperator o l r = .ok v) : ∃ b, v = .bool b := by
+  rcases ho with rfl | rfl | rfl
+  · simp only [execOperator, OpRes.ok.injEq] at h; exact ⟨_, h.symm⟩
+  · exact ge_bool (Or.inr rfl) h
+  · exact ge_bool (Or.inl rfl) h
+
+theorem opH_cmp {a : Heap} {o : Operator} (ho : o = .notEqual ∨ o = .greaterEq ∨ o = .greater) {l r v : Val}
+    (h : cmpH a o l r = .ok v) : opH a o l r = .same v ∧ falseyH a v = v.isFalsey := by
+  obtain ⟨b, rfl⟩ := cmp_bool ho h
+  cases b <;> simp [opH, h, falseyH]
+
+/-- one comparison of the template: `Dup; <push c>; <op>; JumpIfFalse t` with the scrutinee on top -/
+theorem fs_cmp {pos sz t : Nat} {v c r : Val} {ops : List Val} {σ : Sto} {o : Operator} (push : Instr) (hsz : push.size = sz)
+    (ho : o = .notEqual ∨ o = .greaterEq ∨ o = .greater)
+    (hpush : ∀ ops', fstep K F (X.st (pos + 1) ops' σ) = some (X.st (pos + 1 + sz) (c :: ops') σ))
+    (h : codeAt X.code pos [.dup, push, .op o, .jif t]) (hop : cmpH σ.a o v c = .ok r) :
+    FSteps K F (X.st pos (v :: ops) σ) (X.st (if r.isFalsey then t else pos + 1 + sz + 1 + 3) (v :: ops) σ) := by
+  obtain ⟨h1, h⟩ := codeAt_cons h
+  obtain ⟨_, h⟩ := codeAt_cons h
+  rw [hsz] at h
+  obtain ⟨h3, h⟩ := codeAt_cons h
+  obtain ⟨h4, _⟩ := codeAt_cons h
+  have h3 : codeAt X.code (pos + 1 + sz) [Instr.op o] := h3
+  have h4 : codeAt X.code (pos + 1 + sz + 1) [Instr.jif t] := h4
+  obtain ⟨e1, e2⟩ := opH_cmp ho hop
+  refine (FSteps.one (fs_dup h1)).trans ((FSteps.one (hpush _)).trans ((FSteps.one (fs_op h3 e1)).trans ?_))
+  exact (FSteps.one (fs_jif h4)).to (by rw [e2])
+
+theorem fs_pat (p : CPat) (pos k t : Nat) (v : Val) (ops : List Val) (σ : Sto) (b : Bool)
+    (h : codeAt X.code pos (compilePat pos k t p)) (hp : poolAt K k (patConsts p)) (ht : patTestH σ.a v p = some b) :
+    FSteps K F (X.st pos (v :: ops) σ) (X.st (if b then t else pos + patBytes p) (v :: ops) σ) := by
+  cases p with
+  | lit c =>
+    simp only [patTestH] at ht
+    simp only [compilePat] at h
+    cases hop : cmpH σ.a .notEqual v c with
+    | ok r =>
+      simp only [hop, Option.some.injEq] at ht
+      subst ht
+      have hc : codeAt X.code (pos + 1) [Instr.const k] := (codeAt_cons (codeAt_cons h).2).1
+      have := fs_cmp (K := K) (F := F) (sz := 3) (ops := ops) (.const k) rfl (Or.inl rfl)
+        (fun ops' => fs_const hc (poolAt_get (by simpa [patConsts] using hp))) h hop
+      exact this.to (by simp [patBytes])
+    | err m => simp [hop] at ht
+    | panic m => simp [hop] at ht
+  | bool c =>
+    simp only [patTestH] at ht
+    simp only [compilePat] at h
+    cases hop : cmpH σ.a .notEqual v (.bool c) with
+    | ok r =>
+      simp only [hop, Option.some.injEq] at ht
+      subst ht
+      cases c with
+      | true =>
+        have h : codeAt X.code pos [.dup, .tru, .op .notEqual, .jif t] := by simpa using h
+        have hc : codeAt X.code (pos + 1) [Instr.tru] := (codeAt_cons (codeAt_cons h).2).1
+        have := fs_cmp (K := K) (F := F) (sz := 1) (ops := ops) .tru rfl (Or.inl rfl) (fun ops' => fs_tru hc) h hop
+        exact this.to (by simp [patBytes])
+      | false =>
+        have h : codeAt X.code pos [.dup, .fls, .op .notEqual, .jif t] := by simpa using h
+        have hc : codeAt X.code (pos + 1) [Instr.fls] := (codeAt_cons (codeAt_cons h).2).1
+        have := fs_cmp (K := K) (F := F) (sz := 1) (ops := ops) .fls rfl (Or.inl rfl) (fun ops' => fs_fls hc) h hop
+        exact this.to (by simp [patBytes])
+    | err m => simp [hop] at ht
+    | panic m => simp [hop] at ht
+  | range incl lo hi =>
+    simp only [patTestH] at ht
+    simp only [compilePat] at h
+    have hA : codeAt X.code pos [.dup, .const k, .op .greaterEq, .jif (pos + 16)] :=
+      codeAt_left (b := [.dup, .const (k + 1), .op (if incl then .greater else .greaterEq), .jif t]) (by simpa using h)
+    have hB : codeAt X.code (pos + 8) [.dup, .const (k + 1), .op (if incl then .greater else .greaterEq), .jif t] := by
+      have := codeAt_right (a := [.dup, .const k, .op .greaterEq, .jif (pos + 16)]) (by simpa using h)
+      simpa [bytes, Instr.size] using this
+    have hp1 : poolAt K k [lo] := poolAt_left (b := [hi]) (by simpa [patConsts] using hp)
+    have hp2 : poolAt K (k + 1) [hi] := by
+      have := poolAt_right (a := [lo]) (b := [hi]) (by simpa [patConsts] using hp)
+      simpa using this
+    cases hop1 : cmpH σ.a .greaterEq v lo with
+    | ok r1 =>
+      simp only [hop1] at ht
+      have hc1 : codeAt X.code (pos + 1) [Instr.const k] := (codeAt_cons (codeAt_cons hA).2).1
+      have s1 := fs_cmp (K := K) (F := F) (sz := 3) (ops := ops) (.const k) rfl (Or.inr (Or.inl rfl))
+        (fun ops' => fs_const hc1 (poolAt_get hp1)) hA hop1
+      by_cases hf : r1.isFalsey = true
+      · simp only [hf, if_true, Option.some.injEq] at ht s1
+        subst ht
+        exact s1.to (by simp [patBytes])
+      · simp only [hf, Bool.false_eq_true, if_false] at ht s1
+        cases hop2 : cmpH σ.a (if incl then .greater else .greaterEq) v hi with
+        | ok r2 =>
+          simp only [hop2, Option.some.injEq] at ht
+          subst ht
+          have hc2 : codeAt X.code (pos + 8 + 1) [Instr.const (k + 1)] := (codeAt_cons (codeAt_cons hB).2).1
+          have s2 := fs_cmp (K := K) (F := F) (sz := 3) (ops := ops) (.const (k + 1)) rfl
+            (by cases incl <;> simp) (fun ops' => fs_const hc2 (poolAt_get hp2)) hB hop2
+          exact ((s1.to (by simp)).trans s2).to (by simp [patBytes])
+        | err m => simp [hop2] at ht
+        | panic m => simp [hop2] at ht
+    | err m => simp [hop1] at ht
+    | panic m => simp [hop1] at ht
+  | dflt =>
+    simp only [patTestH, Option.some.injEq] at ht
+    subst ht
+    simp only [compilePat] at h
+    exact (FSteps.one (fs_jump h)).to (by simp)
+
+/-- the tests of the patterns of one arm, with the scrutinee `v` on top of the operands -/
+theorem fs_pats : ∀ (ps : List CPat) (pos k t : Nat) (v : Val) (ops : List Val) (σ : Sto) (b : Bool),
+    codeAt X.code pos (compilePats pos k t ps) → poolAt K k (patsConsts ps) → patsTestH σ.a v ps = some b →
+    FSteps K F (X.st pos (v :: ops) σ) (X.st (if b then t else pos + patsBytes ps) (v :: ops) σ)
+  | [], pos, k, t, v, ops, σ, b, _, _, ht => by
+    simp only [patsTestH, Option.some.injEq] at ht
+    subst ht
+    exact (FSteps.refl _).to (by simp [patsBytes])
+  | p :: ps, pos, k, t, v, ops, σ, b, h, hp, ht => by
+    simp only [compilePats] at h
+    simp only [patsConsts] at hp
+    simp only [patsTestH] at ht
+    cases h1 : patTestH σ.a v p with
+    | none => simp [h1] at ht
+    | some b1 =>
+      have s1 := fs_pat (K := K) (F := F) p pos k t v ops σ b1 (codeAt_left h) (poolAt_left hp) h1
+      cases b1 with
+      | true =>
+        simp only [h1, Option.some.injEq] at ht
+        subst ht
+        exact s1
+      | false =>
+        simp only [h1] at ht
+        have hr := codeAt_right h
+        rw [bytes_compilePat] at hr
+        have s2 := fs_pats ps (pos + patBytes p) (k + (patConsts p).length) t v ops σ b hr (poolAt_right hp) ht
+        refine (s1.to (by simp)).trans (s2.to ?_)
+        cases b <;> simp [patsBytes, Nat.add_assoc]
 
 end
 
